@@ -13,6 +13,7 @@ import os, random, re, subprocess, sys, time
 repo, verif, log, seed, count = sys.argv[1], sys.argv[2], sys.argv[3], int(sys.argv[4]), int(sys.argv[5])
 FILES = ["vm.rs", "compiler.rs", "scanner.rs", "object.rs", "value.rs", "core.rs", "memory.rs", "utils.rs", "hash.rs", "chunk.rs", "stack.rs", "class_store.rs", "error.rs"]
 ORDER = ["C05", "C06", "C07", "C08", "C09", "C18", "C12", "C13", "C14", "C15", "C17", "C02", "C01", "C04", "C03", "C11", "C19", "C16", "C10"]
+HOOK_COMMITS = {"c6c30f5", "92da5a9", "f1a1e07", "748368d", "b4f9cb9", "50e3bac", "cef4d7b"}
 ENV = dict(os.environ, CARGO_NET_OFFLINE="true", VERIF_REPO=repo)
 
 REL = [(" < ", " <= "), (" <= ", " < "), (" > ", " >= "), (" >= ", " > "), (" == ", " != "), (" != ", " == "),
@@ -25,13 +26,22 @@ def sites():
         if not os.path.exists(p):
             continue
         lines = open(p).read().split("\n")
+        # lines added by the hook commits are not yarel's own code
+        hook_lines = set()
+        try:
+            bl = subprocess.run(["git", "blame", "-s", "--abbrev=7", "yarel/src/" + f], cwd=repo, stdout=subprocess.PIPE).stdout.decode(errors="replace").split("\n")
+            for k, b in enumerate(bl):
+                if b[:7] in HOOK_COMMITS or b[1:8] in HOOK_COMMITS:
+                    hook_lines.add(k)
+        except Exception:
+            pass
         in_verif = 0
         in_tests = False
         for i, l in enumerate(lines):
             s = l.strip()
             if "mod tests" in s or "#[cfg(test)]" in s:
                 in_tests = True
-            if in_tests:
+            if in_tests or i in hook_lines:
                 continue
             if 'feature = "verif_hooks"' in s or "pub mod verif" in s:
                 in_verif = 40  # skip the hook code that follows
@@ -94,7 +104,7 @@ def main():
             caught = None
             t0 = time.time()
             for cid in ORDER:
-                rc, out = sh("./check %s quick 2>&1 | tail -40" % cid, verif, 3000)
+                rc, out = sh("bash -c 'set -o pipefail; ./check %s quick 2>&1 | tail -40'" % cid, verif, 3000)
                 if rc == 1:
                     sig = ""
                     m = re.search(r"VIOLATION[^\n]*\n([^\n]*)", out)
